@@ -219,7 +219,7 @@ func c16DecodeBatch(c *rt.Ctx, sub int, k intKind, vals []*big.Int) {
 	// other positions on a sample
 	step := 1 + n/96
 	for i := 0; i < n; i += step {
-		for _, pos := range []string{"pointer", "map-key", "string-tag", "stream"} {
+		for _, pos := range []string{"pointer", "map-key", "string-tag", "stream", "map-key-escaped", "string-tag-escaped"} {
 			c16DecodeOne(c, sub, k, pos, texts[i], vals[i], true)
 		}
 	}
@@ -248,9 +248,9 @@ func c16DecodeOne(c *rt.Ctx, sub int, k intKind, pos, lit string, want *big.Int,
 			} else if err == nil {
 				got = "<nil pointer>"
 			}
-		case "map-key":
+		case "map-key", "map-key-escaped":
 			d := reflect.New(reflect.MapOf(k.t, reflect.TypeOf(true)))
-			err = gojson.Unmarshal([]byte(`{"`+lit+`":true}`), d.Interface())
+			err = gojson.Unmarshal([]byte(`{"`+c16Spell(lit, pos)+`":true}`), d.Interface())
 			if err == nil {
 				ks := d.Elem().MapKeys()
 				if len(ks) == 1 {
@@ -259,10 +259,10 @@ func c16DecodeOne(c *rt.Ctx, sub int, k intKind, pos, lit string, want *big.Int,
 					got = fmt.Sprintf("<%d keys>", len(ks))
 				}
 			}
-		case "string-tag":
+		case "string-tag", "string-tag-escaped":
 			st := reflect.StructOf([]reflect.StructField{{Name: "V", Type: k.t, Tag: `json:"v,string"`}})
 			d := reflect.New(st)
-			err = gojson.Unmarshal([]byte(`{"v":"`+lit+`"}`), d.Interface())
+			err = gojson.Unmarshal([]byte(`{"v":"`+c16Spell(lit, pos)+`"}`), d.Interface())
 			got = intText(d.Elem().Field(0))
 		}
 	}
@@ -283,6 +283,24 @@ func c16DecodeOne(c *rt.Ctx, sub int, k intKind, pos, lit string, want *big.Int,
 		c.Violate(rt.Violation{Monitor: "int-decode", Entry: "Unmarshal", Kind: "accepts:" + cls, Ctx: k.name + ":" + pos,
 			Detail: fmt.Sprintf("%s literal %q at %s accepted, stored %s", k.name, lit, pos, got), Input: lit, Sub: sub})
 	}
+}
+
+// c16Spell spells a literal inside a JSON string: as it is, or (positions "...-escaped") with every
+// second ASCII character written as a six-character escape, which makes the string decoder hand
+// an unescaped copy, not a window into the input, to the wrapped integer decoder.
+func c16Spell(lit, pos string) string {
+	if !strings.HasSuffix(pos, "-escaped") {
+		return lit
+	}
+	var sb strings.Builder
+	for i := 0; i < len(lit); i++ {
+		if lit[i] < 0x80 && i%2 == 0 {
+			sb.WriteString("\\" + "u00" + fmt.Sprintf("%02x", lit[i]))
+		} else {
+			sb.WriteByte(lit[i])
+		}
+	}
+	return sb.String()
 }
 
 // litClass names what is wrong (or special) about a literal for kind k.
@@ -356,13 +374,13 @@ func c16InvalidLiterals(c *rt.Ctx, sub int, k intKind, r interface{ Intn(int) in
 		if cls == "in-range" || cls == "minus-zero" {
 			continue
 		}
-		for _, pos := range []string{"plain", "pointer", "map-key", "string-tag", "stream"} {
+		for _, pos := range []string{"plain", "pointer", "map-key", "string-tag", "stream", "map-key-escaped", "string-tag-escaped"} {
 			c16DecodeOne(c, sub, k, pos, lit, nil, false)
 		}
 		nt++
 	}
 	// -0 is a valid JSON integer with value 0
-	for _, pos := range []string{"plain", "pointer", "string-tag", "stream"} {
+	for _, pos := range []string{"plain", "pointer", "string-tag", "stream", "string-tag-escaped"} {
 		if k.signed {
 			c16DecodeOne(c, sub, k, pos, "-0", big.NewInt(0), true)
 		}
